@@ -17,6 +17,8 @@ THEOREMS: dict[str, list[str]] = {
         "Rbacx.C12.c12_limits_only_lose",
         "Rbacx.C12.c12_bad_caveats_inert",
         "Rbacx.C12.c12_caveat_needed",
+        "Rbacx.C12.c12_caveat_on_context",
+        "Rbacx.C12.c12_split_ref",
         "Rbacx.C12.c12_terminates",
         "Rbacx.C12.c12_batch_eq_map",
         "Rbacx.C12.c12_batch_each",
